@@ -534,3 +534,116 @@ CONTRACTS += [
     Contract('control.for_init.double', PROPS, ['qbee.qvm_codegen:gen_for_block'], body_for_init,
              cases=[('DOUBLE', s) for s in (False, True)], explorer={'prove_timeout_ms': 120000}, fp_exact=True, tier='thorough'),
 ]
+
+
+# ------------------------------------------------------------------ SELECT CASE dispatch
+
+class CaseStub:
+    """a CASE statement: by the clause contracts (select.clause, control.case_stmt) it leaves one INTEGER truth value"""
+
+    def __init__(self, k):
+        self.k = k
+
+
+def body_select(h, t, ncases):
+    """SELECT CASE v / CASE c0 / b0 / CASE c1 / b1 ...: the selector is evaluated once and stored in a temporary of its
+    own type; the cases are tested in order; the body of the first case whose test is non-zero runs, then control
+    leaves the block; with no such case the block is skipped"""
+    qt = TYPES[t][1]
+    node = object.__new__(stmt.SelectBlock)
+    sel = _LvStub(qt)
+    sel.k = 'selector'
+    node.value = sel
+    node.case_blocks = [(CaseStub(('case', i)), [Body(('body', i))]) for i in range(ncases)]
+    node._parent_routine = _Routine()
+    node.parent = None
+    code = QvmCode()
+    g = TGen()
+    out = h.call(qvm_codegen.gen_select_block, node, code, g)
+    if not out.returned:
+        h.prove('generator.no_exception', False, detail=repr(out))
+        return
+    h.prove('block_context_popped', g.cur_blocks == [])
+    lv = node._parent_routine.local_vars
+    h.prove('one_temporary_of_the_selector_type', len(lv) == 1 and list(lv.values())[0] == qt)
+    code._instrs.append(ChildInstr('after'))
+    m = MachineV(h, code._instrs, TYPES[t][0])
+    r = m.run()
+    if not expect_child(h, r, 'selector', 'selector_evaluated_first'):
+        return
+    v = mkcell(h, TYPES[t][0], 'selector')
+    m.push(v)
+    taken = None
+    for i in range(ncases):
+        r = m.run()
+        if i == 0:
+            ok = len(m.vars) == 1
+            h.prove('selector_stored_in_the_temporary', ok)
+            if ok:
+                c = list(m.vars.values())[0]
+                prove_cell(h, 'temporary_holds_the_selector', c, TYPES[t][0], v.value)
+        if not expect_child(h, r, ('case', i), f'case_{i}_tested_in_order'):
+            return
+        m.depth_is_entry(f'stack_at_case_{i}')
+        tv = mkcell(h, CT.INTEGER, f'test{i}')
+        m.push(tv)
+        r = m.run()
+        if r[0] == 'raise':
+            h.prove('case_test_cannot_fail', False, detail=repr(r[1]))
+            return
+        if h.branch(tv.value != 0):
+            if not expect_child(h, r, ('body', i), f'true_case_{i}_runs_its_body'):
+                return
+            m.depth_is_entry(f'stack_in_body_{i}')
+            r = m.run()
+            expect_child(h, r, 'after', 'body_leaves_the_block')
+            m.depth_is_entry('stack_after_block')
+            return
+        # false: falls to the next test (or out)
+        m.pc -= 1 if r[0] == 'child' else 0     # un-read the placeholder: the next iteration (or the end) reads it
+    r = m.run()
+    expect_child(h, r, 'after', 'no_true_case_skips_the_block')
+    m.depth_is_entry('stack_after_block')
+
+
+def body_case_stmt(h, n):
+    """CASE c0, c1, ...: the OR of the clause values (each -1 or 0 by select.clause); CASE ELSE: always true"""
+    code = QvmCode()
+    g = TGen()
+    if n == 0:
+        node = object.__new__(stmt.CaseElseStmt)
+        out = h.call(qvm_codegen.gen_case_else_stmt, node, code, g)
+    else:
+        node = object.__new__(stmt.CaseStmt)
+        node.cases = [Body(i) for i in range(n)]
+        out = h.call(qvm_codegen.gen_case_stmt, node, code, g)
+    if not out.returned:
+        h.prove('generator.no_exception', False, detail=repr(out))
+        return
+    m = Machine(h, code._instrs)
+    vals = []
+    anytrue = False
+    for i in range(n):
+        r = m.run()
+        if not expect_child(h, r, i, 'clauses_in_order'):
+            return
+        b = h.bool(f'clause{i}')
+        val = -1 if h.branch(b) else 0
+        anytrue = anytrue or (val == -1)
+        m.push(lcell_int(val))
+    r = m.run()
+    h.prove('no_exception', r == ('end',), detail=repr(r))
+    cells = stack_after(h, m.cpu, 1)
+    if cells:
+        prove_cell(h, 'truth_value', cells[0], CT.INTEGER, -1 if (anytrue or n == 0) else 0)
+
+
+from contracts.vm import lcell_int
+
+CONTRACTS += [
+    Contract('control.select', PROPS, ['qbee.qvm_codegen:gen_select_block'], body_select,
+             cases=[(t, n) for t in ('INTEGER', 'DOUBLE', 'STRING') for n in (0, 1, 2, 3)],
+             trusted=['CASE statements are placeholders leaving one INTEGER truth value (select.clause, control.case_stmt)']),
+    Contract('control.case_stmt', PROPS, ['qbee.qvm_codegen:gen_case_stmt', 'qbee.qvm_codegen:gen_case_else_stmt'], body_case_stmt,
+             cases=[(n,) for n in (0, 1, 2, 3)]),
+]
